@@ -1,0 +1,28 @@
+//go:build verif
+
+// Machine-checked contracts for package graphql (comment-only; see /verif/DESIGN.md).
+// Nothing in this file is compiled into the package: it holds only //@ lines
+// read by /verif/govc.
+
+package graphql
+
+// ---- scalar coercion (C04: every Int leaf is a 32-bit integer or null; C05: conformant values are accepted unchanged)
+
+//@ func coerceInt
+//@   props C04 C05
+//@   assigns nothing
+//@   nopanic
+//@   ensures result == nil || (typeis(result, "int") && -2147483648 <= intval(result) && intval(result) <= 2147483647)
+//@   ensures typeis(value, "int") && -2147483648 <= intval(value) && intval(value) <= 2147483647 ==> result != nil && intval(result) == intval(value)
+//@   ensures typeis(value, "int64") && -2147483648 <= intval(value) && intval(value) <= 2147483647 ==> result != nil && intval(result) == intval(value)
+//@   ensures typeis(value, "int32") ==> result != nil && intval(result) == intval(value)
+//@   ensures typeis(value, "int16") ==> result != nil && intval(result) == intval(value)
+//@   ensures typeis(value, "int8") ==> result != nil && intval(result) == intval(value)
+//@   ensures typeis(value, "uint8") ==> result != nil && intval(result) == intval(value)
+//@   ensures typeis(value, "uint16") ==> result != nil && intval(result) == intval(value)
+//@   ensures typeis(value, "uint") && intval(value) <= 2147483647 ==> result != nil && intval(result) == intval(value)
+//@   ensures typeis(value, "uint32") && intval(value) <= 2147483647 ==> result != nil && intval(result) == intval(value)
+//@   ensures typeis(value, "uint64") && intval(value) <= 2147483647 ==> result != nil && intval(result) == intval(value)
+//@   ensures typeis(value, "float64") && f64(value) >= -2147483648.0 && f64(value) <= 2147483647.0 ==> result != nil
+//@   ensures typeis(value, "float32") && f32(value) >= f32(-2147483648) && f32(value) <= f32(2147483520) ==> result != nil
+//@   ensures typeis(value, "bool") ==> result != nil && (boolval(value) ==> intval(result) == 1) && (!boolval(value) ==> intval(result) == 0)
